@@ -21,6 +21,9 @@ def main():
     seed = int(os.environ.get('VERIF_SEED', '0') or 0)
     pid = a.pid.upper()
     os.environ.setdefault('PYTHONHASHSEED', '0')
+    import logging
+    logging.getLogger('qecsim').setLevel(logging.CRITICAL)
+    logging.disable(logging.WARNING)
     try:
         core.assert_repo_binding()
         mod = importlib.import_module('qv.props.' + pid.lower())
